@@ -116,8 +116,8 @@ class BBStepSize(PGMStepSize):
             den = snp.real(snp.sum(Δx.conj() * Δg))
             num = snp.real(snp.sum(Δg.conj() * Δg))
             L = num / den
-            # Revert to previous iterate if update results in nan or negative value.
-            if snp.isnan(L) or L <= 0.0:
+            # Revert to previous iterate if update results in nan, inf, or non-positive value.
+            if not snp.isfinite(L) or L <= 0.0:
                 L = self.pgm.L
             # Store current state and gradient for next update.
             self.xprev = v
@@ -205,11 +205,11 @@ class AdaptiveBBStepSize(PGMStepSize):
             innergg = snp.real(snp.sum(Δg.conj() * Δg))
             Lbb1 = innerxg / innerxx
             # Revert to previous iterate if computation results in nan or negative value.
-            if snp.isnan(Lbb1) or Lbb1 <= 0.0:
+            if not snp.isfinite(Lbb1) or Lbb1 <= 0.0:
                 Lbb1 = self.Lbb1prev
             Lbb2 = innergg / innerxg
             # Revert to previous iterate if computation results in nan or negative value.
-            if snp.isnan(Lbb2) or Lbb2 <= 0.0:
+            if not snp.isfinite(Lbb2) or Lbb2 <= 0.0:
                 Lbb2 = self.Lbb2prev
             # If possible, apply adaptive selection rule, if not, revert to previous iterate
             if Lbb1 is not None and Lbb2 is not None:
